@@ -2,6 +2,12 @@
 // C09 (only critical hook failures matter, exactly as documented).
 // Real Environment + real looplab/fsm (instrumented copy) + real callable.Call,
 // probe plugin, scripted transition bodies (package envsim).
+//
+// Scenario families (suffix): A/B/C/D = hooks of the first transition of [CONFIGURE], [CONFIGURE,START,STOP],
+// [CONFIGURE,RESET], [CONFIGURE(fails),CONFIGURE]; W = weights with several digits, unsigned weight 0;
+// X = await points at another weight than the trigger's; E / R = hooks of every transition of
+// [START, STOP(fails), GO_ERROR, RECOVER, EXIT] / [CONFIGURE, START, STOP]; K = calls failing by an error
+// returned from their function. Hook tasks: harness c09t; the core's own teardown: harness c08t.
 package main
 
 import (
@@ -259,15 +265,13 @@ func chooseHooks(cfgs []hookCfg, n int, seq []attempt) []envsim.Hook {
 		prev = k
 		hooks = append(hooks, cfgs[k].build(fmt.Sprintf("h%d", i), seq))
 	}
-	// slot gates: calls with identical trigger and await==trigger must be started together
+	// slot gates: calls with the same trigger point must be started together, wherever they are awaited
+	// (a gated probe returns only when every call of its slot has started)
 	for i := range hooks {
-		if hooks[i].Await != "" {
-			continue
-		}
 		var slot []string
 		ni, wi := parseTrig(hooks[i].Trigger)
 		for j := range hooks {
-			if nj, wj := parseTrig(hooks[j].Trigger); hooks[j].Await == "" && nj == ni && wj == wi {
+			if nj, wj := parseTrig(hooks[j].Trigger); nj == ni && wj == wi {
 				slot = append(slot, hooks[j].ID)
 			}
 		}
@@ -697,6 +701,7 @@ func main() {
 		scen{"order2-X", "C08", seqA, 2, awaitCfgs([]int{0, 4, 5}), false}.make(b(0, 100), b(1, 900)),
 		scen{"order1-E", "C08", seqE, 1, seqCfgs(seqE, []int{0, 1, 2, 3}, false), false}.make(b(1, 100), b(2, 900)),
 		scen{"order2-E", "C08", seqE, 2, seqCfgs(seqE, []int{0, 2}, false), false}.make(b(0, 150), b(1, 1500)),
+		scen{"order1-R", "C08", seqB, 1, seqCfgs(seqB, []int{0, 1, 2, 3}, false), false}.make(b(1, 100), b(2, 900)),
 		scen{"fail1-A", "C09", seqA, 1, fc, true}.make(b(2, 60), b(3, 300)),
 		scen{"fail2-A", "C09", seqA, 2, fc, true}.make(b(1, 100), b(2, 900)),
 		scen{"fail2-B", "C09", seqB, 2, fc, true}.make(b(0, 100), b(1, 900)),
@@ -706,5 +711,6 @@ func main() {
 		scen{"fail2-K", "C09", seqA, 2, kindCfgs(), true}.make(b(0, 100), b(1, 900)),
 		scen{"fail1-E", "C09", seqE, 1, seqCfgs(seqE, []int{0, 1, 2}, true), true}.make(b(1, 100), b(2, 900)),
 		scen{"fail2-E", "C09", seqE, 2, seqCfgs(seqE, []int{0}, true), true}.make(b(0, 150), b(1, 1500)),
+		scen{"fail1-R", "C09", seqB, 1, seqCfgs(seqB, []int{0, 1, 2}, true), true}.make(b(1, 100), b(2, 900)),
 	})
 }
